@@ -75,28 +75,26 @@ func ParseBool(v string) (Bool, error) {
 // inputScale: the decimal scale of input amount
 // outputScale: the decimal scale of output amount
 func LossLessSwap(input sdkmath.Int, ratio sdkmath.LegacyDec, inputScale, outputScale uint32) (sdkmath.Int, sdkmath.Int) {
-	inputDec := sdkmath.LegacyNewDecFromInt(input)
 	scaleFactor := int64(inputScale) - int64(outputScale)
-	var scaleMultipler, scaleReverseMultipler sdkmath.LegacyDec
 
+	// output = input * ratio * 10^(outputScale-inputScale), kept as the exact fraction input*num/den
+	num := sdkmath.NewIntFromBigInt(ratio.BigInt())
+	den := sdkmath.NewIntWithDecimal(1, sdkmath.LegacyPrecision)
 	if scaleFactor >= 0 {
-		scaleMultipler = sdkmath.LegacyNewDecWithPrec(1, scaleFactor)
-		scaleReverseMultipler = sdkmath.LegacyNewDecFromInt(sdkmath.NewIntWithDecimal(1, int(scaleFactor)))
+		den = den.Mul(sdkmath.NewIntWithDecimal(1, int(scaleFactor)))
 	} else {
-		scaleMultipler = sdkmath.LegacyNewDecFromInt(sdkmath.NewIntWithDecimal(1, int(-scaleFactor)))
-		scaleReverseMultipler = sdkmath.LegacyNewDecWithPrec(1, -scaleFactor)
+		num = num.Mul(sdkmath.NewIntWithDecimal(1, int(-scaleFactor)))
+	}
+	if !num.IsPositive() || !input.IsPositive() {
+		return sdkmath.ZeroInt(), sdkmath.ZeroInt()
 	}
 
-	// Calculate output
-	outputDec := inputDec.Clone().Mul(scaleMultipler).Mul(ratio)
-	outputInt := outputDec.Clone().TruncateDec()
+	// only whole output units are produced
+	output := input.Mul(num).Quo(den)
 
-	// Adjust input if there are decimal places in the output
-	if !outputDec.Equal(outputInt) {
-		outputFrac := outputDec.Clone().Sub(outputInt)
-		inputFrac := outputFrac.Mul(scaleReverseMultipler)
-		input = inputDec.Sub(inputFrac).TruncateInt()
-	}
+	// the input actually consumed is the least amount worth `output`: ceil(output*den/num);
+	// the remainder (dust) stays with the caller
+	consumed := output.Mul(den).Add(num).SubRaw(1).Quo(num)
 
-	return input, outputInt.TruncateInt()
+	return consumed, output
 }
